@@ -611,10 +611,10 @@ pub fn run(args: &Args) -> Report {
         cases.push(Case { label: format!("{} | local produces {} B, peer script {:?}, peer window {}, lazy_ack={}", sc.name, sc.local_out, sc.peer, sc.peer_rwnd, sc.lazy_ack), exec: Box::new(move |r| exec(&sc, r)) });
     }
     let plan = Plan {
-        ks: if thorough { vec![0, 1, 2] } else { vec![0, 1] },
+        ks: if thorough { vec![0, 1, 2, 3] } else { vec![0, 1, 2] },
         env: if thorough { 3 } else { 2 },
         fault: 0,
-        total_wall: Duration::from_secs(if thorough { 1500 } else { 40 }),
+        total_wall: Duration::from_secs(if thorough { 1500 } else { 25 }),
         max_execs_per_case: 20_000_000,
         required_witnesses: W_PARTIAL_WRITE | W_PENDING | W_ERR_INJECTED | W_COMPLETED_OK | W_HALF_CLOSE_LOCAL_FIRST | W_HALF_CLOSE_PEER_FIRST | W_CREDIT_WAIT | W_COALESCED,
         witness_names: &[
